@@ -31,8 +31,12 @@ META = dict(
                "the real Engine and its first method error classified.",
     level_note="Partial: uod commands with a custom (non-regex) argument parser are excluded by hypothesis (C20_full is "
                "refuted by C20_counterexample_custom_parser; known finding). Hypotheses that are facts about Python `re`/"
-               "`int`/the parser are transmitted per case and checked (anchored patterns: search ⇒ match; the Base "
-               "pattern matches exactly the listed units; REGEX_INT ⇒ int(); node classes of the two parsers agree). "
+               "`int`/the parser hold of the real functions for every string and are transmitted per case and checked "
+               "(anchored patterns: search ⇒ match; re.search on the published Base pattern = acceptBase, probed on "
+               "stripped and unstripped strings; REGEX_INT ⇒ int(); node classes of the two parsers agree, arguments are "
+               "stripped). The oracle treats EVERY method error of an analyzer-clean method as a failure; the key comes "
+               "from the failing node, the raising function and data (tag known? units reject any values?), not from "
+               "message texts. Known: value-dependent condition failures (tag value is text). "
                "The model follows the code with the two C20 fix diffs: on a tree without them the check reports a "
                "violation (Base: <unit without provider>; Simulate with a unit needing conversion or 'CV'; '%' vs 'mol%'). "
                "Not covered: thresholds, macros, run-state dependent failures, exec functions, units added by add_unit.",
